@@ -327,12 +327,15 @@ class StructGen:
     def g_mk_vertex(self, rng, view, namer):
         if len(view.vertices()) >= self.cfg.get("max_vertices", 9):
             return None
-        return {
+        op = {
             "op": "mk_vertex",
             "new": namer.new("v"),
             "cls": rng.choice(self.cfg.get("vertex_classes", ["Vertex"])),
             "tag": rng.randrange(6),
         }
+        if op["cls"] == "HandoverVertex" and view.vertices():
+            op["heir"] = rng.choice(view.vertices())
+        return op
 
     # multi-ended links on their own sub-pool -----------------------------------------
     def g_mk_multi(self, rng, view, namer):
@@ -471,7 +474,7 @@ class StructGen:
         op = {}
         r = rng.random()
         if r < 0.8:
-            op["dir"] = rng.choice(["fwd", "any", "back"])
+            op["dir"] = rng.choice(["fwd", "fwd", "any", "any", "back", "back", "T", "F"])
         if rng.random() < 0.8:
             op["unk"] = rng.choice(["non", "nb", "err"])
         return op
